@@ -407,6 +407,16 @@ func genPayload(r *rand.Rand, amount *big.Int, wellFormedBias bool) string {
 	if !wellFormedBias && r.Intn(12) == 0 {
 		return []string{"", "{", "null", "[]", `{"type":5}`}[r.Intn(5)]
 	}
+	if r.Intn(12) == 0 {
+		// the same command with its keys spelled in another case: every part of the connector must read it the same way
+		up := func(k string) string {
+			if r.Intn(2) == 0 {
+				return strings.ToUpper(k)
+			}
+			return strings.ToUpper(k[:1]) + k[1:]
+		}
+		return fmt.Sprintf(`{%q:%q,%q:%q,%q:%q}`, up("type"), typ, up("recipient"), rcp, up("fee"), fee)
+	}
 	if !wellFormedBias && r.Intn(5) == 0 {
 		// objects that leave fields out: whatever a decoder kept from an earlier payload must not fill them in
 		return []string{"{}", `{"fee":"0"}`, `{"fee":"10"}`, `{"type":"send_to_hub"}`, `{"type":"send_to_bsc","fee":"0"}`,
